@@ -1,4 +1,4 @@
-import AlgoVerif.Lemmas.AcctUpdatesPages
+import AlgoVerif.Lemmas.AcctUpdatesPagesRes
 import AlgoVerif.Props.C08
 /-!
 # C10 — paginated listings return each resource exactly once
@@ -12,6 +12,9 @@ Theorems proved here (all inputs, every limit / byte cap / prefix / cursor):
 * `pages_cover`                  ANY pager whose pages are non-empty prefixes of what is left and whose moreData flag is set exactly
                                  when something is left (`KvPageContract`), iterated with next-token = last key returned,
                                  enumerates the live list exactly once, in order, and stops exactly at the end;
+* `res_listing_strictly_increasing`, `res_listing_after_cursor`, `res_pages_cover`  the same for the asset and application
+                                 listings of an account (`id >` cursor, limit-only pages: a page shorter than its limit ends
+                                 the listing), for every limit ≥ 1;
 * `page_rule_*`                  the limit / byte-cap rule (`kvTrim`, shared by the model): at least one item, at most `limit`;
 * `db_scan_is_prefix`            the DB cursor scan (`processKvRows`: exclusive cursor, exclusion set, byte budget with "at least
                                  one", stop at limit, peek) returns a non-empty prefix of the qualifying rows and `more` exactly
@@ -71,6 +74,58 @@ theorem spec_page_contract (h : History) (rnd : Nat) (pfx : Key) (limit maxb : N
   cases hl : liveKv h rnd pfx c with
   | nil => exact absurd hl hne
   | cons x xs => exact kvTrim_pos _ _ _ x xs
+
+/-! ### assets and applications of an account -/
+
+/-- the asset listing of the oracle: the holdings of `a` at `rnd` with id > gt, ids strictly increasing -/
+theorem res_listing_strictly_increasing (h : History) (rnd : Nat) (a : Addr) (gt : Nat) (wp : Bool) :
+    ((liveAssets h rnd a gt).map (·.cidx)).Pairwise (fun x y => x < y) ∧
+    ((liveApps h rnd a gt wp).map (·.cidx)).Pairwise (fun x y => x < y) := by
+  rw [liveAssets_eq, liveApps_eq]
+  simp only [List.map_map]
+  have e1 : ((fun (x : ResItem) => x.cidx) ∘ resItem h rnd a .asset true) = id := by funext c; rfl
+  have e2 : ((fun (x : ResItem) => x.cidx) ∘ resItem h rnd a .app wp) = id := by funext c; rfl
+  rw [e1, e2, List.map_id, List.map_id]
+  exact ⟨sortedIds_sorted _ _ _, sortedIds_sorted _ _ _⟩
+
+/-- an id is listed exactly when the account holds the asset at that round (and the id is after the cursor) -/
+theorem res_listing_complete (h : History) (rnd : Nat) (a : Addr) (gt c : Nat) :
+    c ∈ (liveAssets h rnd a gt).map (·.cidx) ↔ c ∈ h.cidxs ∧ gt < c ∧ (resAt h rnd a c .asset).hold.isSome = true := by
+  rw [liveAssets_eq]
+  simp only [List.map_map]
+  have e1 : ((fun (x : ResItem) => x.cidx) ∘ resItem h rnd a .asset true) = id := by funext c; rfl
+  rw [e1, List.map_id, mem_sortedIds]
+
+/-- exclusive `id >` cursor: restarting after the n-th listed asset yields exactly the rest -/
+theorem res_listing_after_cursor (h : History) (rnd : Nat) (a : Addr) (gt n : Nat) (x : ResItem)
+    (hx : (liveAssets h rnd a gt)[n]? = some x) :
+    liveAssets h rnd a x.cidx = (liveAssets h rnd a gt).drop (n + 1) := by
+  rw [liveAssets_eq] at hx ⊢
+  rw [List.getElem?_map] at hx
+  cases hc : (sortedIds h.cidxs (fun c => (resAt h rnd a c .asset).hold.isSome) gt)[n]? with
+  | none => rw [hc] at hx; simp at hx
+  | some c =>
+    rw [hc] at hx; simp only [Option.map_some, Option.some.injEq] at hx; subst hx
+    show List.map _ (sortedIds _ _ c) = _
+    rw [sortedIds_after _ _ gt n c hc, liveAssets_eq, List.map_drop]
+
+/-- **C10 (assets / applications).** Paging with `id > last id returned` and any limit ≥ 1, until a page is shorter than the
+    limit, returns the account's assets (resp. applications) present at the round exactly once, in increasing order -/
+theorem res_pages_cover (h : History) (rnd : Nat) (a : Addr) (wp : Bool) (limit : Nat) (hl : 0 < limit) (gt fuel : Nat)
+    (hfA : (liveAssets h rnd a gt).length < fuel) (hfL : (liveApps h rnd a gt wp).length < fuel) :
+    (iterLimit (fun g => (liveAssets h rnd a g).take limit) (·.cidx) limit fuel gt).flatten = liveAssets h rnd a gt ∧
+    (iterLimit (fun g => (liveApps h rnd a g wp).take limit) (·.cidx) limit fuel gt).flatten = liveApps h rnd a gt wp := by
+  constructor
+  · have := iterLimit_cover (fun g => sortedIds h.cidxs (fun c => (resAt h rnd a c .asset).hold.isSome) g)
+      (resItem h rnd a .asset true) (·.cidx) (fun c => rfl) (fun g n x hx => sortedIds_after _ _ g n x hx) limit hl fuel gt
+      (by rw [liveAssets_eq, List.length_map] at hfA; exact hfA)
+    simp only [List.map_take] at this
+    exact this
+  · have := iterLimit_cover (fun g => sortedIds h.cidxs (fun c => (resAt h rnd a c .app).hold.isSome || creatorAt h rnd c .app == some a) g)
+      (resItem h rnd a .app wp) (·.cidx) (fun c => rfl) (fun g n x hx => sortedIds_after _ _ g n x hx) limit hl fuel gt
+      (by rw [liveApps_eq, List.length_map] at hfL; exact hfL)
+    simp only [List.map_take] at this
+    exact this
 
 /-- the page rule: at least one item of a non-empty list -/
 theorem page_rule_at_least_one {α : Type} (sz : α → Nat) (maxb limit : Nat) (x : α) (xs : List α) :
